@@ -570,6 +570,27 @@ func genCfg(r *R) Cfg {
 			}
 		}
 	}
+	// list LENGTHS on type-width boundaries: 255..257 now and then, 65535..65537 origins very rarely (they cost ~0.1 s)
+	if len(c.Origins) > 0 && c.Origins[0] != "*" {
+		star := false
+		for _, o := range c.Origins {
+			star = star || o == "*"
+		}
+		if !star && r.P(0.012) {
+			n := pick(r, []int{255, 256, 257})
+			if allowHugeOriginLists && r.P(0.03) {
+				n = pick(r, []int{65536, 65536, 65535, 65537})
+			}
+			for i := len(c.Origins); i < n; i++ {
+				c.Origins = append(c.Origins, fmt.Sprintf("https://w%05d.filler.test", i))
+			}
+		}
+	}
+	if len(c.Methods) > 0 && c.Methods[0] != "*" && r.P(0.006) {
+		for i, n := len(c.Methods), pick(r, []int{255, 256, 257}); i < n; i++ {
+			c.Methods = append(c.Methods, fmt.Sprintf("W%03d", i))
+		}
+	}
 	c.MaxAge = pick(r, vocabMaxAge)
 	if r.P(0.35) {
 		c.MaxAge = pick(r, []int{r.Range(1, 86400), r.Range(1, 100), 7200, 86399, 2, 4, 6})
@@ -590,6 +611,10 @@ func genCfg(r *R) Cfg {
 	}
 	return c
 }
+
+// allowHugeOriginLists: set by the engines whose single run is cheap enough (C10, C02) to
+// afford a 65536-pattern configuration now and then (~0.1 s each).
+var allowHugeOriginLists bool
 
 // padOriginsTo pads the origin list of every configuration that has no "*" to n
 // patterns with the same filler origins (so that the configurations stay
@@ -765,13 +790,31 @@ func shrinkCfg(c Cfg) []Cfg {
 	lists := []*[]string{&c.Origins, &c.Methods, &c.RequestHeaders, &c.ResponseHeaders}
 	for li := range lists {
 		l := *lists[li]
-		for i := range l {
-			if li == 0 && len(l) == 1 {
-				break
+		// long lists: drop halves, quarters, eighths first (one candidate per element would be
+		// quadratic in memory: 65536 clones of 65536 strings), single elements only at the ends
+		type cut struct{ from, to int }
+		var cuts []cut
+		if len(l) > 24 {
+			for parts := 2; parts <= 8; parts *= 2 {
+				for k := 0; k < parts; k++ {
+					cuts = append(cuts, cut{k * len(l) / parts, (k + 1) * len(l) / parts})
+				}
+			}
+			for i := 0; i < 8; i++ {
+				cuts = append(cuts, cut{i, i + 1}, cut{len(l) - 1 - i, len(l) - i})
+			}
+		} else {
+			for i := range l {
+				cuts = append(cuts, cut{i, i + 1})
+			}
+		}
+		for _, ct := range cuts {
+			if li == 0 && ct.to-ct.from >= len(l) {
+				continue
 			}
 			d := c.clone()
 			dl := []*[]string{&d.Origins, &d.Methods, &d.RequestHeaders, &d.ResponseHeaders}[li]
-			*dl = append(append([]string{}, l[:i]...), l[i+1:]...)
+			*dl = append(append([]string{}, l[:ct.from]...), l[ct.to:]...)
 			if len(*dl) == 0 {
 				*dl = nil
 			}
@@ -1055,6 +1098,29 @@ func registerObservers(m *cors.Middleware) {
 				unknownAPICalls++
 			}()
 		}
+	}
+}
+
+// pokeGetters calls every unknown exported method of *cors.Middleware that takes no
+// argument (Stats(), String(), ...): a read-only accessor that an operator's dashboard
+// polls. Whatever it returns is ignored; it must not change anything (a lazily built
+// cache behind a getter is state all the same).
+func pokeGetters(m *cors.Middleware) {
+	if !observeUnknownAPI || m == nil {
+		return
+	}
+	v := reflect.ValueOf(m)
+	t := v.Type()
+	for i := 0; i < t.NumMethod(); i++ {
+		mt := t.Method(i)
+		if knownMethods[mt.Name] || mt.Type.NumIn() != 1 {
+			continue
+		}
+		func() {
+			defer func() { recover() }()
+			v.Method(i).Call(nil)
+			unknownAPICalls++
+		}()
 	}
 }
 
